@@ -65,6 +65,9 @@ def pick_ids(case, ctx, rng):
         out.append((f"LicenseRef-{rng.choice(['custom', 'Prop.v', 'my-lic', 'X9'])}{k}-{j}", "licenseref"))
     for j in range(4):
         out.append((rng.choice(["Foo", "my_license", "GPL-9.", "Weird.Lic", "Proprietary"]) + f"{k}x{j}", "unknown"))
+    for j in range(2):
+        # the LicenseRef- prefix is case-sensitive like everything else: these are plain unknown identifiers
+        out.append((rng.choice(["licenseref-", "LICENSEREF-", "Licenseref-", "licenseRef-"]) + f"odd{k}x{j}", "unknown"))
     for i in sweep(pools["current"], 4, 11):
         wc = i.lower() if i.lower() != i else i.upper()
         if wc not in trees.spdx_lists()["all"] and all(wc != o[0] for o in out):
@@ -201,6 +204,16 @@ def build_recipe(case, ctx):
             P[ident] = f"LICENSES/{ident}.txt"
             extra.append({"path": f"LICENSES/{ident}.txt.license", "text": "SPDX-FileCopyrightText: 2020 X\nSPDX-License-Identifier: CC0-1.0\n"})
         cells.append((ident, cls, use, prov, carrier if use != "unused" else "-"))
+    if mode == "toml":
+        # several REUSE.toml files speak about one file: an aggregate table further out and an override table nearer to it.
+        # Every identifier of every source that applies counts as used.
+        a, b = f"LicenseRef-outer-aggregate-{case['k']}", f"LicenseRef-inner-override-{case['k']}"
+        files.append({"path": "ovr/gen/table.c", "kind": "text", "style": "c", "multi": False,
+                      "sources": [{"carrier": "toml-aggregate", "copyrights": ["2021 Outer"], "exprs": [("id", a)], "toml_dir": ""},
+                                  {"carrier": "toml-override", "copyrights": ["2021 Inner"], "exprs": [("id", b)], "toml_dir": "ovr"}]})
+        U.update([a, b])
+        cells.append((a, "licenseref", "alone", "absent", "toml-aggregate"))
+        cells.append((b, "licenseref", "alone", "absent", "toml-override"))
     if "LicenseRef-helper" in U:
         licenses.append({"name": "LicenseRef-helper.txt", "id": "LicenseRef-helper"})
         P["LicenseRef-helper"] = "LICENSES/LicenseRef-helper.txt"
